@@ -10,6 +10,7 @@ import (
 	"time"
 
 	"github.com/AstromechZA/etcpwdparse"
+	"github.com/sirupsen/logrus"
 
 	"hop.computer/hop/authgrants"
 	"hop.computer/hop/certs"
@@ -48,6 +49,28 @@ type mAction struct {
 	sess  int
 	desc  string
 }
+
+type execStart struct {
+	cmd   string
+	shell bool
+}
+
+// execHook picks the server's "starting code execution" log entries (command and shell fields).
+type execHook struct{ fn func(cmd string, shell bool) }
+
+func (h *execHook) Levels() []logrus.Level { return []logrus.Level{logrus.InfoLevel} }
+func (h *execHook) Fire(e *logrus.Entry) error {
+	if e.Message == "starting code execution" {
+		cmd, _ := e.Data["command"].(string)
+		shell, _ := e.Data["shell"].(bool)
+		h.fn(cmd, shell)
+	}
+	return nil
+}
+
+type nullFormatter struct{}
+
+func (nullFormatter) Format(*logrus.Entry) ([]byte, error) { return nil, nil }
 
 func calledFrom(fn string) bool {
 	pcs := make([]uintptr, 32)
@@ -91,13 +114,43 @@ func scDelegate(r *Run) {
 	sfs := &simFS{r: r, files: map[string]*simFile{}, opens: map[string]int{}}
 	hs.VerifSetFS(sfs)
 	var mu sync.Mutex
-	curReq := -1
+	curReq, curSess := -1, 0
 	started := map[int]bool{}
+	reqCmd := map[int]execStart{}
+	var pending []execStart
+	var actions []*mAction
+	base := time.Now()
+	// WHICH command the server is about to start is taken from the server itself (its log entry right
+	// before the user lookup), not from the request the harness happens to be issuing: the server pairs
+	// exec tubes in arrival order, so a command can be started by a later pair than the one it was sent for
+	logrus.SetLevel(logrus.InfoLevel)
+	logrus.SetFormatter(nullFormatter{})
+	logrus.AddHook(&execHook{fn: func(cmd string, shell bool) {
+		mu.Lock()
+		pending = append(pending, execStart{cmd, shell})
+		mu.Unlock()
+	}})
+	defer func() {
+		logrus.SetLevel(logrus.ErrorLevel)
+		logrus.StandardLogger().ReplaceHooks(make(logrus.LevelHooks))
+		logrus.SetFormatter(&logrus.TextFormatter{})
+	}()
 	thunks.LookupUser = func(name string) (*etcpwdparse.EtcPasswdEntry, error) {
 		if calledFrom("hopSession).startCodex") {
 			// the request passed the grant check: execution would start now.  Nothing is run.
 			mu.Lock()
 			started[curReq] = true
+			es, ok := reqCmd[curReq], false
+			if len(pending) > 0 {
+				es, ok = pending[len(pending)-1], true
+				pending = pending[:len(pending)-1]
+			}
+			if !ok {
+				r.Probe("exec-start-without-log-entry")
+			}
+			at := time.Now()
+			actions = append(actions, &mAction{kind: "exec", shell: es.shell, cmd: es.cmd, at: at, sess: curSess,
+				desc: fmt.Sprintf("command shell=%v cmd=%q at +%v", es.shell, es.cmd, at.Sub(base))})
 			mu.Unlock()
 			return nil, thunks.ErrUserNotFound
 		}
@@ -126,7 +179,6 @@ func scDelegate(r *Run) {
 	delegateKeys := []*keys.X25519KeyPair{newX25519(), newX25519()}
 	cmds := []string{"ls", "ls -l", "cat /etc/passwd", "id"}
 	var grants []*mGrant
-	base := time.Now()
 	addGrant := func(key string) {
 		g := &mGrant{user: users[r.Intn(key, 2)], key: delegateKeys[r.Intn(key, 2)].Public}
 		g.typ = []authgrants.GrantType{authgrants.Shell, authgrants.Command, authgrants.Command, authgrants.LocalPF, authgrants.RemotePF}[r.Intn(key, 5)]
@@ -153,7 +205,6 @@ func scDelegate(r *Run) {
 		addGrant("grant")
 	}
 
-	var actions []*mAction
 	sessNo := 0
 	reqNo := 0
 	// one delegate connection: login, then a drawn sequence of action requests
@@ -235,8 +286,52 @@ func scDelegate(r *Run) {
 			reqNo++
 			id := reqNo
 			mu.Lock()
-			curReq = id
+			curReq, curSess = id, me
 			mu.Unlock()
+			// two things no grant can cover (tried on their own, and also in the middle of an exec request,
+			// while the server waits for the second tube of the pair)
+			tryPF := func() { // remote port forwarding onto a unix socket in a directory that does not exist
+				pf, err := mux.CreateReliableTube(common.PFControlTube)
+				if err != nil {
+					return
+				}
+				path := "/nonexistent-verif-dir/fwd.sock"
+				req := append([]byte{3, 5, 0, byte(len(path))}, path...)
+				at := time.Now()
+				pf.Write(req)
+				resp := make([]byte, 1)
+				got := false
+				WithTimeout(r, 20*time.Second, func() { _, err := io.ReadFull(pf, resp); got = err == nil })
+				r.Logf("session %d: remote port-forward request -> answered=%v byte=%d", me, got, resp[0])
+				if got && resp[0] == 1 {
+					mu.Lock()
+					actions = append(actions, &mAction{kind: "pf", at: at, sess: me, desc: fmt.Sprintf("remote port forwarding at +%v (server answered success)", at.Sub(base))})
+					mu.Unlock()
+				}
+				pf.Close()
+			}
+			tryMint := func() { // mint a further grant from inside the delegate session
+				ag, err := mux.CreateReliableTube(common.AuthGrantTube)
+				if err != nil {
+					return
+				}
+				nk := newX25519()
+				in := authgrants.Intent{GrantType: authgrants.Shell, StartTime: time.Now(), ExpTime: time.Now().Add(time.Hour),
+					TargetUsername: user, TargetSNI: certs.DNSName("target.sim"), DelegateCert: *SelfSigned(nk.Public, certs.RawStringName("delegate2"))}
+				at := time.Now()
+				authgrants.WriteIntentCommunication(ag, in)
+				var m authgrants.AgMessage
+				var rerr error
+				WithTimeout(r, 20*time.Second, func() { m, rerr = authgrants.ReadConfOrDenial(ag) })
+				minted := rerr == nil && m.MsgType == authgrants.IntentConfirmation
+				r.Logf("session %d: grant minting request -> confirmed=%v", me, minted)
+				if minted {
+					mu.Lock()
+					actions = append(actions, &mAction{kind: "mint", at: at, sess: me, desc: fmt.Sprintf("issuing a further grant at +%v (server confirmed the intent)", at.Sub(base))})
+					mu.Unlock()
+				}
+				ag.Close()
+			}
 			switch r.Intn(key, 8) {
 			default: // exec request
 				shell := r.Intn(key, 3) == 0
@@ -263,11 +358,32 @@ func scDelegate(r *Run) {
 					cmd = append(cmds, "", "rm -rf /")[r.Intn(key, len(cmds)+2)]
 				}
 				t1, e1 := mux.CreateReliableTube(common.ExecTube)
+				if e1 == nil {
+					switch r.Intn(key, 8) {
+					case 0:
+						time.Sleep(time.Duration(r.Intn(key, 50)) * time.Millisecond)
+						r.CountFault("forbidden-tube-inside-exec-pair/pf", 1)
+						tryPF()
+					case 1:
+						time.Sleep(time.Duration(r.Intn(key, 50)) * time.Millisecond)
+						r.CountFault("forbidden-tube-inside-exec-pair/mint", 1)
+						tryMint()
+					}
+				}
 				t2, e2 := mux.CreateReliableTube(common.ExecTube)
 				if e1 != nil || e2 != nil {
 					return
 				}
+				// the command may come long after the tubes were opened (the clock moves across start / expiry
+				// times in between): what counts is the moment the action is asked for
+				if r.Intn(key, 4) == 0 {
+					time.Sleep([]time.Duration{time.Second, time.Minute, 20 * time.Minute, 2 * time.Hour}[r.Intn(key, 4)] * time.Duration(1+r.Intn(key, 3)))
+					r.CountFault("clock-jump-between-tubes-and-command", 1)
+				}
 				at := time.Now()
+				mu.Lock()
+				reqCmd[id] = execStart{cmd, shell}
+				mu.Unlock()
 				t1.Write(execInit(shell, cmd))
 				resp := make([]byte, 1)
 				WithTimeout(r, 20*time.Second, func() { io.ReadFull(t2, resp) })
@@ -276,48 +392,12 @@ func scDelegate(r *Run) {
 				st := started[id]
 				mu.Unlock()
 				r.Logf("session %d: exec shell=%v cmd=%q at +%v -> started=%v", me, shell, cmd, at.Sub(base), st)
-				if st {
-					actions = append(actions, &mAction{kind: "exec", shell: shell, cmd: cmd, at: at, sess: me,
-						desc: fmt.Sprintf("exec request shell=%v cmd=%q at +%v", shell, cmd, at.Sub(base))})
-				}
 				t1.Close()
 				t2.Close()
-			case 0: // remote port forwarding onto a unix socket in a directory that does not exist
-				pf, err := mux.CreateReliableTube(common.PFControlTube)
-				if err != nil {
-					return
-				}
-				path := "/nonexistent-verif-dir/fwd.sock"
-				req := append([]byte{3, 5, 0, byte(len(path))}, path...)
-				at := time.Now()
-				pf.Write(req)
-				resp := make([]byte, 1)
-				got := false
-				WithTimeout(r, 20*time.Second, func() { _, err := io.ReadFull(pf, resp); got = err == nil })
-				r.Logf("session %d: remote port-forward request -> answered=%v byte=%d", me, got, resp[0])
-				if got && resp[0] == 1 {
-					actions = append(actions, &mAction{kind: "pf", at: at, sess: me, desc: fmt.Sprintf("remote port forwarding at +%v (server answered success)", at.Sub(base))})
-				}
-				pf.Close()
-			case 1: // try to mint a further grant from inside the delegate session
-				ag, err := mux.CreateReliableTube(common.AuthGrantTube)
-				if err != nil {
-					return
-				}
-				nk := newX25519()
-				in := authgrants.Intent{GrantType: authgrants.Shell, StartTime: time.Now(), ExpTime: time.Now().Add(time.Hour),
-					TargetUsername: user, TargetSNI: certs.DNSName("target.sim"), DelegateCert: *SelfSigned(nk.Public, certs.RawStringName("delegate2"))}
-				at := time.Now()
-				authgrants.WriteIntentCommunication(ag, in)
-				var m authgrants.AgMessage
-				var rerr error
-				WithTimeout(r, 20*time.Second, func() { m, rerr = authgrants.ReadConfOrDenial(ag) })
-				minted := rerr == nil && m.MsgType == authgrants.IntentConfirmation
-				r.Logf("session %d: grant minting request -> confirmed=%v", me, minted)
-				if minted {
-					actions = append(actions, &mAction{kind: "mint", at: at, sess: me, desc: fmt.Sprintf("issuing a further grant at +%v (server confirmed the intent)", at.Sub(base))})
-				}
-				ag.Close()
+			case 0:
+				tryPF()
+			case 1:
+				tryMint()
 			}
 		}
 	}
